@@ -4374,6 +4374,26 @@ def rule_parse_sign(ck, W, facts):
         ck.ob(rule, "String::parse<unsigned>", not probs, "; ".join(sorted(set(probs))[:2]) or "a leading '-' is rejected (%d unsigned instantiation(s))" % len(insts), g0.file, g0.line)
 
 
+def attr_key_of(f, expr, attrs, depth=0):
+    """attribute name K if expr is (derived from) a look-up of K in the attribute map `attrs`: attrs.find(K) / attrs.at(K) /
+    helper(attrs, K), directly or through the locals it is bound to"""
+    if expr is None or depth > 3:
+        return None
+    for z in walk_init(expr):
+        if z.get("k") in ("MCall", "Call") and z.get("a"):
+            ops = [z.get("obj")] + list(z.get("a", []))
+            if any(o is not None and strip(o) is not None and strip(o).get("k") == "Ref" and strip(o).get("n") == attrs for o in ops):
+                for a in z.get("a", []):
+                    if str_value(a) is not None:
+                        return str_value(a)
+    r = root_var(expr)
+    if r and r != attrs:
+        li = local_init(f, r)
+        if li is not None:
+            return attr_key_of(f, li, attrs, depth + 1)
+    return None
+
+
 def rule_attr_value_used(ck, W, pcs, facts):
     rule = "E7.attr-value-used"
     cfs_all = class_functions(facts)
@@ -4396,7 +4416,7 @@ def rule_attr_value_used(ck, W, pcs, facts):
                     lhs, rhs = n["a"][0], n["a"][1]
                 if n.get("k") == "MCall" and n.get("callee") == "FEAT::String::parse" and n.get("a") and is_this_field(n["a"][0]):
                     # a field filled by parsing (a token of) an attribute
-                    Kp = trace_attr(create, n.get("obj"))
+                    Kp = trace_attr(create, n.get("obj")) or attr_key_of(create, n.get("obj"), attrs)
                     o_ = strip(n.get("obj"))
                     if Kp is None and o_ is not None and o_.get("k") == "MCall" and strip(o_.get("obj")) is not None and strip(o_["obj"]).get("k") == "Ref":
                         li_ = local_init(create, strip(o_["obj"])["n"])
